@@ -244,6 +244,18 @@ def gen(tier):
                  ('log(8, 2)', 'log(8, 10)'), ('format_size(size, \'%.0\')', 'format_size(size, \'%.2\')'), ('substr(name, -1)', 'substr(name, 1)')):
         yield {'k': 'pair', 'a': a, 'b': b, 'fn': 'two-calls-in-one-query'}
         yield {'k': 'pair', 'a': b, 'b': a, 'fn': 'two-calls-in-one-query'}
+    # ---- two calls whose argument values spell the same text when written one after the other, divided differently between the arguments
+    for sep in (', ', ',', ' ', '|', ';', '\x1f', '\t', '","', "' '"):
+        if "'" in sep:
+            q1, q2 = '"a%sb"' % sep, '"b%sc"' % sep
+            pa = [('concat(%s, "c")' % q1, 'concat("a", %s)' % q2)]
+        else:
+            pa = [("concat('a%sb', 'c')" % sep, "concat('a', 'b%sc')" % sep), ("concat_ws('-', 'a%sb', 'c')" % sep, "concat_ws('-', 'a', 'b%sc')" % sep),
+                  ("coalesce('a', '')", "coalesce('a%s')" % sep), ("upper(concat('x%sy', name))" % sep, "upper(concat('x', 'y%s', name))" % sep),
+                  ("replace('a%sb', 'b', 'c')" % sep, "replace('a', 'b%sb', 'c')" % sep), ("concat(name, '%sx', 'y')" % sep, "concat(name, '', 'x%sy')" % sep)]
+        for a, b in pa:
+            yield {'k': 'pair', 'a': a, 'b': b, 'fn': 'argument-boundaries'}
+            yield {'k': 'pair', 'a': b, 'b': a, 'fn': 'argument-boundaries'}
     # ---- three calls in one query, some of them negated: each column is still what it is alone
     trio = ['length(name)', 'length(path)', 'length(ext)', 'abs(size)', 'power(size, 2)']
     for a, b, c_ in itertools.permutations(trio, 3):
